@@ -422,6 +422,12 @@ package postgres
 //@ records flush
 // the flush channel is created by New and never closed
 //@ requires w != nil && !closed(w.flush)
+// Flush is called by the kernel loop at the end of every tick and must never wait: the worker reads the flush
+// channel only while it collects a batch, not while it hands completions to a full completion queue, which only
+// the kernel loop drains (a blocking send here is a deadlock between the two)
+//@ site send assert false
+//@ site select assert !blocking && selects(w.flush)
+//@ ensures sends(w.flush) <= 1
 
 //@ func (*PostgresStore).Flush
 //@ props C12
@@ -471,3 +477,9 @@ package postgres
 //@ requires s != nil && s.sq != nil && !closed(s.sq)
 //@ ensures result == (sends(s.sq) == 1)
 //@ ensures sends(s.sq) <= 1
+// a refused submission is answered by the caller (aio.EnqueueSQE): the subsystem never invokes the callback here
+//@ funcvalue \.Callback$ records callback
+//@ ensures [body C12] calls("callback") == 0
+// called on the kernel loop: never waits (the only send is the non-blocking one)
+//@ site send assert false
+//@ site select assert !blocking
